@@ -59,6 +59,9 @@ func (p *Prog) JS() string {
 	}
 	for _, op := range p.Ops {
 		switch op.Kind {
+		case "spin":
+			// takes a while and has no effect (for crowds of executions that overlap in time)
+			sb.WriteString("for (var zi = 0; zi < 100000; zi++) {}\n")
 		case "emit":
 			sb.WriteString("_.out(" + jsText(op.J) + ");\n")
 		case "emitb":
